@@ -751,6 +751,15 @@ func (f *c25sFamily) run(r *vkit.Run, srv *e2e.Server, replay *c25sCase) {
 		cases = []*c25sCase{replay}
 	} else {
 		cells := c25sCells()
+		if f := os.Getenv("VERIF_DEBUG_C25S_CELLS"); f != "" { // development aid: only cells whose "fe|framing|stage|abort|early" contains f
+			var keep []c25sCell
+			for _, c := range cells {
+				if strings.Contains(c.fe+"|"+c.framing+"|"+c.stage+"|"+c.abort+"|"+c.early, f) {
+					keep = append(keep, c)
+				}
+			}
+			cells = keep
+		}
 		order := r.Rng("stream-cell-order", 0).Perm(len(cells))
 		n := r.N(4*len(cells), 60*len(cells))
 		if v := envInt("VERIF_DEBUG_NS"); v >= 0 {
